@@ -29,7 +29,7 @@ class C04(Prop):
     def gen(self, seed, idx, tier):
         R = Rng(seed, "C04")
         n = R.weighted([(2, 35), (3, 30), (4, 20), (5, 10), (6, 5)])
-        policy = R.choice(["concurrent", "concurrent", "bursty", "bursty", "staggered", "sequential", "reverse"])
+        policy = R.choice(["concurrent", "concurrent", "concurrent", "bursty", "bursty", "staggered", "sequential", "reverse"])
         cfg = {"records_max": 6, "len_max": 2000, "isn_wrap": False, "policy": policy}
         used = set()
         conns = []
@@ -60,7 +60,9 @@ class C04(Prop):
                 if quic_ok and E.chance(40):
                     from .. import quicpeer
                     c = quicpeer.gen_quic_conn(R.fork("q", j), j, {"small": True, "v6_pct": c2.get("v6_pct", 30),
-                                                                    "zero_cid_pct": 30, "policy": policy}, used, **kw)
+                                                                    "zero_cid_pct": 30, "policy": policy,
+                                                                    "long_ch_pct": 60, "crypto_reorder_pct": 60,
+                                                                    "hs_dup_pct": 25}, used, **kw)
                 else:
                     c = gen.gen_tls_conn(R.fork("conn", j), j, c2, used, **kw)
                     if R.chance(60):
